@@ -704,6 +704,11 @@ def b_zip(it, a, k):
     if any(isinstance(x, SList) for x in a):
         from . import slist as SL
         return SZip([SL.as_slist(it, x) for x in a])
+    if a and all(isinstance(x, Vec) and not isinstance(x.n, int) for x in a):
+        # arrays of one and the same symbolic length: an array of tuples (zip of unequal lengths is not modelled)
+        if not all(z3.eq(z3.simplify(term(x.n)), z3.simplify(term(a[0].n))) for x in a[1:]):
+            raise Unsupported('zip over arrays of different symbolic lengths')
+        return Vec(a[0].n, lambda i, a=tuple(a): tuple(x.at(i) for x in a))
     lists = [it.iterate(x) for x in a]
     return list(zip(*lists))
 
